@@ -17,10 +17,13 @@ use crate::model::*;
 use crate::pop::PKG;
 
 /// The fields a masked view keeps (identity members survive every mask):
-/// everything the population's views carry except `name` and `attributes`.
+/// everything the population's views carry except `name`, `attributes`
+/// (Concepts) and `valid_time` (Assertions) - one hidden member per query
+/// clause that reads a member: FILTER / ORDER BY / LIMIT windows read
+/// `name` and `attributes`, FOR TIME reads `valid_time`.
 pub const MASK_FIELDS: &[&str] = &[
     "_system", "schema_ref", "governance", "subject", "predicate_ref", "object", "key",
-    "proposition_id", "asserted_by", "stance", "mode", "confidence", "asserted_at", "valid_time", "evidence_refs",
+    "proposition_id", "asserted_by", "stance", "mode", "confidence", "asserted_at", "evidence_refs",
     "context_refs", "lifecycle",
 ];
 
@@ -38,7 +41,7 @@ pub enum Action {
     GElem,
     /// bundle + project, max_classification=internal -> p1
     GCeil,
-    /// bundle, field mask hiding name+attributes, unscoped -> p1
+    /// bundle, field mask hiding name+attributes+valid_time, unscoped -> p1
     GMask,
     /// bundle, unscoped, valid_until in 2020 -> p1
     GExpired,
